@@ -124,6 +124,10 @@ CrashScenarios == {
   S("k-plan",    L_one,  P1(PlanAB), {}),
   S("k-plan-empty", L_empty, P1(PlanAB), {}),
   S("k-new-uni", L_one, P1(NewTaskUni), {}),
+  S("k-set-big", L_two, P1([TC("set", "i1", "done", ABSENT, "") EXCEPT !.title = "renamed", !.body = "BIG"]), {}),
+  S("k-newclaim-big", L_one, P1([NewTaskClaim("a1") EXCEPT !.body = "BIG"]), {}),
+  S("k-compact-big", L_big, P1(Compact), {}),
+  S("k-plan-big", L_big, P1(PlanAB), {}),
   S("k-settitle-uni", L_two, P1(SetTitle("i1", "UNI")), {}),
   S("k-seq",     L_epic, P1(SeqC(<<"i2", "i3">>)), {}),
   S("k-set3",    L_two,  P1([TC("set", "i1", "done", ABSENT, "") EXCEPT !.title = "renamed", !.body = "text"]), {})
